@@ -38,8 +38,13 @@ def run_assoc(a, b, c, ml, ms):
 
 class Recording(DS.DataSource):
     """data source with a fixed answer that notes what it is asked"""
-    def __init__(self, idx, out, found, glog, flog):
-        self.idx, self.out, self.found, self.glog, self.flog = idx, out, found, glog, flog
+    def __init__(self, idx, out, found, glog, flog, fexc=None):
+        self.idx, self.out, self.found, self.glog, self.flog, self.fexc = idx, out, found, glog, flog, fexc
+
+    def set(self, s):
+        """the source's backing data changes (a history on one composite)"""
+        self.out = ("ok", s["data"], s["ver"]) if s["exc"] is None else ("exc", RAISES[s["exc"]])
+        self.found, self.fexc = s["find"], s.get("fexc")
 
     def get_data(self, system_id, preceding_data, preceding_data_version):
         self.glog.append((self.idx, system_id, copy.deepcopy(preceding_data), preceding_data_version))
@@ -49,31 +54,60 @@ class Recording(DS.DataSource):
 
     def find_system(self, lookup_key, lookup_value):
         self.flog.append(self.idx)
+        if self.fexc is not None:
+            raise RAISES[self.fexc]()
         return self.found
 
 
-RAISES = {4: RuntimeError, 3: KeyError, 6: OSError}
+RAISES = {4: RuntimeError, 3: KeyError, 6: OSError, 5: FileNotFoundError, 2: ValueError}
 
 
-def run_chain(c):
-    glog, flog = [], []
-    srcs = []
-    for i, s in enumerate(c["srcs"]):
-        out = ("ok", s["data"], s["ver"]) if s["exc"] is None else ("exc", RAISES[s["exc"]])
-        srcs.append(Recording(i, out, s["find"], glog, flog))
-    comp = DS.get_composite_data_source(srcs, merge_lists=c["ml"], merge_sets=c["ms"])
+def call_pair(comp, c):
     try:
         d, v = comp.get_data(c["sys"], copy.deepcopy(c["pd"]), c["pv"])
         gres = ("ok", d, v)
     except Exception as e:     # noqa: BLE001
         gres = ("exc", exc_code(e))
-    fres = comp.find_system(c["fk"], c["fv"])
+    try:
+        fres = ("ok", comp.find_system(c["fk"], c["fv"]))
+    except Exception as e:     # noqa: BLE001
+        fres = ("exc", exc_code(e))
+    return gres, fres
+
+
+def run_chain(c):
+    glog, flog = [], []
+    srcs = [Recording(i, None, None, glog, flog) for i in range(len(c["srcs"]))]
+    for r, s in zip(srcs, c["srcs"]):
+        r.set(s)
+    comp = DS.get_composite_data_source(srcs, merge_lists=c["ml"], merge_sets=c["ms"])
+    gres, fres = call_pair(comp, c)
     return glog, gres, flog, fres
 
 
-def hash_table(c):
+class HistObs(list):
+    """observation of a history (one entry per call pair)"""
+
+
+def run_chist(c):
+    """ONE composite over the same source objects; their answers change between the calls"""
+    glog, flog = [], []
+    n = len(c["steps"][0]["srcs"])
+    srcs = [Recording(i, None, None, glog, flog) for i in range(n)]
+    comp = DS.get_composite_data_source(srcs, merge_lists=c["ml"], merge_sets=c["ms"])
+    out = []
+    for st in c["steps"]:
+        for r, s in zip(srcs, st["srcs"]):
+            r.set(s)
+        del glog[:], flog[:]
+        gres, fres = call_pair(comp, st)
+        out.append((list(glog), gres, list(flog), fres))
+    return HistObs(out)
+
+
+def hash_table(c, t=None):
     """the strings aggregate_version is expected to hash along the chain, with the real hash"""
-    t = []
+    t = [] if t is None else t
     cur = c["pv"]
     for s in c["srcs"]:
         if s["exc"] is not None:
@@ -97,6 +131,24 @@ def enc_ostr(o):
     return [] if o is None else [o]
 
 
+def enc_fres(r):
+    return enc_ostr(r[1]) if r[0] == "ok" else [r[1]]
+
+
+def enc_src(s):
+    return [[0, [enc(s["data"]), s["ver"]]] if s["exc"] is None else [1, s["exc"]],
+            enc_ostr(s["find"]) if s.get("fexc") is None else [s["fexc"]]]
+
+
+def enc_step_obs(o):
+    glog, gres, flog, fres = o
+    return [[[i, s, enc(d), v] for (i, s, d, v) in glog], enc_gres(gres), list(flog), enc_fres(fres)]
+
+
+def norm_step(x):
+    return [[[c[0], c[1], norm(c[2]), c[3]] for c in x[0]], norm_gres(x[1]), x[2], x[3]]
+
+
 def norm_gres(x):
     return [0, [norm(x[1][0]), x[1][1]]] if x[0] == 0 else x
 
@@ -104,9 +156,11 @@ def norm_gres(x):
 def norm_obs(kind, x):
     if kind == "assoc":
         return [norm_res(x[0]), norm_res(x[1])]
+    if kind == "chist":
+        return [norm_step(o) for o in x]
     if kind == "merge":
         return [norm_res(x[0]), norm(x[1]), norm(x[2])]
-    return [[[c[0], c[1], norm(c[2]), c[3]] for c in x[0]], norm_gres(x[1]), x[2], x[3]]
+    return norm_step(x)
 
 
 class C13(Check):
@@ -114,7 +168,9 @@ class C13(Check):
     technique = ("Coq proofs about a Gallina model of _merge_data_trees / _CompositeDataSource / aggregate_version "
                  "(merge_lookup_spec, identities, idempotence, composite = fold with exact source arguments, "
                  "first non-None, version injectivity) + differential correspondence with the real functions")
-    rule = ("assoc cases: every triple of dict trees up to 2 nodes and random triples up to 3 nodes / random deeper trees, "
+    rule = ("histories: 3-5 call pairs on ONE composite whose sources change data/version, start or stop raising "
+            "(get_data and find_system) between the calls; special values (None/0/''/b''/False/{}/[]/()/set()/non-ASCII/"
+            "huge) in every value position and as keys; assoc cases: every triple of dict trees up to 2 nodes and random triples up to 3 nodes / random deeper trees, "
             "both groupings through the real merge_data_trees compared incl. the exception class; merge cases: every ordered pair of dict trees over {None,0,1,'x',b'x',[],(),set(),{}} and nested "
             "list/tuple/set/dict with node-count bound, all four (merge_lists, merge_sets) settings, the single-key "
             "family {a:X} x {a:Y} over sampled pairs of values up to 3 nodes, and seeded random deeper trees (tuple/bytes/int/None "
@@ -169,6 +225,39 @@ class C13(Check):
                 a, b, c = (rng.choice(mid) for _ in range(3))
             ml, ms = rng.choice(flags)
             yield {"kind": "assoc", "a": a, "b": b, "c": c, "ml": ml, "ms": ms}
+        # falsy / sentinel / non-ASCII / huge values in every value position under one common key, and as keys
+        special = [None, 0, "", b"", False, True, {}, [], (), set(), "\xe9", -7, 10 ** 30, {"": None}, [None], (None,), {0}]
+        for x in special:
+            for y in special:
+                for ml, ms in flags:
+                    yield {"kind": "merge", "a": {"a": x, "k": 1}, "b": {"a": y}, "ml": ml, "ms": ms}
+        for k in (None, 0, "", b"", "\xe9", (), ("", None), -1, 10 ** 30):
+            for x in (None, 0, {}, [1]):
+                for ml, ms in flags[1:3]:
+                    yield {"kind": "merge", "a": {k: x, "z": {k: x}}, "b": {"z": {k: [2]}, k: {}}, "ml": ml, "ms": ms}
+        # histories on ONE composite: a source changes its answer (or starts / stops failing) between calls
+        hmenu = [{"a": 1}, {"a": 2, "b": [1]}, {"b": [2]}, {}, {"c": {"d": 1}}, {"a": None}, {"a": 0, "b": []}]
+        for n in (2, 3):
+            for _ in range(60 if tier == "quick" else 1500):
+                cur = [{"data": rng.choice(hmenu), "ver": "v%d" % j, "exc": None, "find": rng.choice([None, None, "sys%d" % j, ""]),
+                        "fexc": None} for j in range(n)]
+                steps = []
+                sysid, pd, pv = rng.choice(["s1", ""]), rng.choice([{}, {"a": 0}]), rng.choice(["", "p0"])
+                for k in range(rng.randrange(3, 6)):
+                    if k >= 1 and rng.random() < 0.8:
+                        j = rng.randrange(n)
+                        r = rng.random()
+                        if r < 0.55:
+                            cur[j] = dict(cur[j], data=rng.choice(hmenu), ver=cur[j]["ver"] + "'", exc=None)
+                        elif r < 0.7:
+                            cur[j] = dict(cur[j], exc=rng.choice([6, 4]))
+                        elif r < 0.85:
+                            cur[j] = dict(cur[j], fexc=rng.choice([6, 5, None]), exc=None)
+                        else:
+                            cur[j] = dict(cur[j], find=rng.choice([None, "other", ""]), fexc=None)
+                    steps.append({"srcs": [dict(x) for x in cur], "sys": sysid, "pd": pd, "pv": pv, "fk": "mac", "fv": "02:00"})
+                ml, ms = rng.choice(flags)
+                yield {"kind": "chist", "ml": ml, "ms": ms, "steps": steps}
         # chains
         menu = [{"a": 1}, {"a": 2, "b": [1]}, {"b": [2, 1]}, {"c": {"d": 1}}, {"c": {"e": {1}}}, {"c": 5}, {}, {"a": {"x": None}}]
         n_ex = 0
@@ -181,7 +270,8 @@ class C13(Check):
                 srcs = []
                 for j, m in enumerate(combo):
                     if m == len(menu):
-                        srcs.append({"data": None, "ver": "", "exc": rng.choice([4, 3, 6]), "find": None})
+                        srcs.append({"data": None, "ver": "", "exc": rng.choice([4, 3, 6]), "find": None,
+                                     "fexc": rng.choice([None, 6, 5, 2])})
                     else:
                         srcs.append({"data": menu[m], "ver": rng.choice(["v%d" % j, "", "a|b", "v"]),
                                      "exc": None, "find": rng.choice([None, None, "sys%d" % j, ""])})
@@ -195,7 +285,8 @@ class C13(Check):
             srcs = []
             for j in range(n):
                 if rng.random() < 0.08:
-                    srcs.append({"data": None, "ver": "", "exc": rng.choice([4, 3, 6]), "find": rng.choice([None, "q"])})
+                    srcs.append({"data": None, "ver": "", "exc": rng.choice([4, 3, 6]), "find": rng.choice([None, "q"]),
+                                 "fexc": rng.choice([None, None, 6, 5])})
                 else:
                     srcs.append({"data": pyval.rand_tree(rng, 2, keys=("a", "b", "c")),
                                  "ver": "".join(rng.choice("ab|0") for _ in range(rng.randrange(0, 5))),
@@ -211,6 +302,8 @@ class C13(Check):
             return run_assoc(c["a"], c["b"], c["c"], c["ml"], c["ms"])
         if c["kind"] == "merge":
             return run_merge(c["a"], c["b"], c["ml"], c["ms"])
+        if c["kind"] == "chist":
+            return run_chist(c)
         return run_chain(c)
 
     def enc_obs(self, c, o):
@@ -219,16 +312,23 @@ class C13(Check):
         if c["kind"] == "merge":
             r, a1, b1 = o
             return [enc_res_tree(r), enc(a1), enc(b1)]
-        glog, gres, flog, fres = o
-        return [[[i, s, enc(d), v] for (i, s, d, v) in glog], enc_gres(gres), list(flog), enc_ostr(fres)]
+        if c["kind"] == "chist":
+            return [enc_step_obs(x) for x in o]
+        return enc_step_obs(o)
 
     def line(self, c, o):
         if c["kind"] == "assoc":
             return sx([2, c["ml"], c["ms"], enc(c["a"]), enc(c["b"]), enc(c["c"]), self.enc_obs(c, o)])
         if c["kind"] == "merge":
             return sx([0, c["ml"], c["ms"], enc(c["a"]), enc(c["b"]), self.enc_obs(c, o)])
-        srcs = [[[0, [enc(s["data"]), s["ver"]]] if s["exc"] is None else [1, s["exc"]], enc_ostr(s["find"])]
-                for s in c["srcs"]]
+        if c["kind"] == "chist":
+            ht = []
+            for st in c["steps"]:
+                hash_table(st, ht)
+            steps = [[[enc_src(s) for s in st["srcs"]], st["sys"], enc(st["pd"]), st["pv"], st["fk"], enc(st["fv"])]
+                     for st in c["steps"]]
+            return sx([3, c["ml"], c["ms"], ht, steps, self.enc_obs(c, o)])
+        srcs = [enc_src(s) for s in c["srcs"]]
         return sx([1, c["ml"], c["ms"], hash_table(c), srcs, c["sys"], enc(c["pd"]), c["pv"], c["fk"], enc(c["fv"]),
                    self.enc_obs(c, o)])
 
@@ -248,7 +348,7 @@ class C13(Check):
 
     def canon(self, o):
         # the case kind is recoverable from the observation's arity
-        kind = {2: "assoc", 3: "merge"}.get(len(o), "chain")
+        kind = "chist" if isinstance(o, HistObs) else {2: "assoc", 3: "merge"}.get(len(o), "chain")
         c = {"kind": kind}
         return norm_obs(kind, unsx(sx(self.enc_obs(c, o))))
 
@@ -261,6 +361,8 @@ class C13(Check):
             if any(k in c["b"] for k in c["a"]):
                 return sx([enc(c["a"]), enc(c["b"]), c["ml"], c["ms"]])
             return None
+        if c["kind"] == "chist":
+            return repr(c) if len(c["steps"]) >= 3 else None
         if len(c["srcs"]) >= 2:
             return repr(c)
         return None
@@ -272,6 +374,10 @@ class C13(Check):
         if c["kind"] == "merge":
             return {"kind": "merge", "a": pyval.show(c["a"]), "b": pyval.show(c["b"]),
                     "merge_lists": c["ml"], "merge_sets": c["ms"]}
+        if c["kind"] == "chist":
+            return {"kind": "history on one composite", "merge_lists": c["ml"], "merge_sets": c["ms"],
+                    "steps": [dict(st, srcs=[dict(s, data=pyval.show(s["data"])) for s in st["srcs"]], pd=pyval.show(st["pd"]))
+                              for st in c["steps"]]}
         d = dict(c)
         d["srcs"] = [dict(s, data=pyval.show(s["data"])) for s in c["srcs"]]
         d["pd"] = pyval.show(c["pd"])
@@ -279,6 +385,16 @@ class C13(Check):
         return d
 
     def shrink(self, c):
+        if c["kind"] == "chist":
+            st = c["steps"]
+            for i in range(len(st)):
+                if len(st) > 1:
+                    yield dict(c, steps=st[:i] + st[i + 1:])
+            n = len(st[0]["srcs"])
+            for j in range(n):
+                if n > 1:
+                    yield dict(c, steps=[dict(x, srcs=x["srcs"][:j] + x["srcs"][j + 1:]) for x in st])
+            return
         if c["kind"] in ("merge", "assoc"):
             for side in (("a", "b") if c["kind"] == "merge" else ("a", "b", "c")):
                 t = c[side]
